@@ -30,10 +30,24 @@ func init() {
 }
 
 func checkC07(c *Ctx) {
-	w := c.W
 	ruleGetFileMiss(c, "R07.1")
 
-	// R07.2 ---------------------------------------------------------------
+	ruleDepCacheRecompute(c)
+
+	// R07.3 / R07.4 ---------------------------------------------------------
+	checkLinkerReuse(c, "R07.3", "R07.4")
+
+	// R07.5 ---------------------------------------------------------------
+	c.Rule("R07.5", "go-internal Cache.GetFile fails when the data file's size differs from the index entry", 1)
+	checkCacheLibrary(c, "R07.5")
+}
+
+// ruleDepCacheRecompute is R07.2. It is a necessary condition of three properties: a
+// lost entry is recomputed (C07), the result does not depend on which entries of the
+// cache happen to be present (C03), and the reflection facts of the whole import
+// graph reach every dependant (C08).
+func ruleDepCacheRecompute(c *Ctx) {
+	w := c.W
 	c.Rule("R07.2", "computePkgCache: miss -> recursive recompute, merge (CopyFrom), store (PutBytes) before success", 6)
 	cpc := w.Fn("computePkgCache")
 	clo := w.Fn("computePkgCache$1")
@@ -149,12 +163,6 @@ func checkC07(c *Ctx) {
 		}
 	}
 
-	// R07.3 / R07.4 ---------------------------------------------------------
-	checkLinkerReuse(c, "R07.3", "R07.4")
-
-	// R07.5 ---------------------------------------------------------------
-	c.Rule("R07.5", "go-internal Cache.GetFile fails when the data file's size differs from the index entry", 1)
-	checkCacheLibrary(c, "R07.5")
 }
 
 func valueOfInstr(in ssa.Instruction) ssa.Value {
